@@ -114,10 +114,16 @@ def abstract_nl(e, memo):
     return r
 
 
+RL_PER_MS = 1500      # z3 resource units per nominal millisecond (measured on this image)
+
+
 def check_abstracted(assertions, timeout_ms=5000):
+    """Budget = z3's deterministic resource counter (so a proof found on a quiet machine is
+    found on a busy one), with a wall-clock backstop six times the nominal time."""
     memo = {}
     s = _z3.Solver()
-    s.set("timeout", timeout_ms)
+    s.set("rlimit", int(timeout_ms) * RL_PER_MS)
+    s.set("timeout", int(timeout_ms) * 6)
     for a in assertions:
         s.add(abstract_nl(a, memo))
     return s.check()
